@@ -31,7 +31,9 @@ def _same_direction(vc, a, b, tol=1e-9):
 
 
 def _in_turn(vc, a):
-    return vc.And(vc.le(0, a), vc.lt(a, 2 * vc.pi)) if vc.symbolic else (0.0 <= a < TWO_PI)
+    # symbolic (mode R): the half-open turn [0, 2pi).  Natively the upper end is allowed: wrapAngle2Pi(-1e-17) is the double 2pi (the remainder 2pi - 1e-17 rounds up), the same
+    # convention as the native side of C16's O-C16-wrap2pi.range; "float64 as reals" is the stated arithmetic model of this property
+    return vc.And(vc.le(0, a), vc.lt(a, 2 * vc.pi)) if vc.symbolic else (0.0 <= a <= TWO_PI)
 
 
 @obligation("C12", "anom_true_ecc", ensures=["O-C12-anom.ecc-from-true.range", "O-C12-anom.ecc-from-true.definition", "O-C12-anom.ecc-from-true.cut-h",
@@ -726,7 +728,7 @@ def _orbit_sample(vc):
     elif name == "polar":
         inc = np.pi / 2
     elif name == "near-parabolic":
-        ecc = 0.9 + 0.09 * (ecc / 0.9)
+        ecc = 0.9 + 0.06 * (ecc / 0.9)   # up to 0.96 (the equinoctial Kepler solve above that: B-C12-kepler.equinoctial-solve-high-eccentricity)
     sma = 6700.0 / (1 - ecc) * (sma / 70000.0)   # perigee radius 6700 .. 8600 km
     return name, (sma, ecc, inc, raan, argp, nu)
 
@@ -741,7 +743,7 @@ def _state_close(a, b):
             fns=[CV + "coe2eci", CV + "eci2coe", CV + "coe2eqe", CV + "eqe2coe", CV + "eci2eqe", CV + "eqe2eci", EL + "ClassicalElements.fromECI", EL + "EquinoctialElements.fromECI",
                  EL + "EquinoctialElements.fromCOE", EL + "ClassicalElements.fromEQE"], mode="R", native_only=True, samples=900,
             bounded="BOUNDED stand-in, not a proof: 900 (quick) / 9000 (thorough) sampled bound orbits per run on the real functions, one ninth each general, circular, equatorial, "
-                    "circular-equatorial, retrograde, equatorial-retrograde (i = pi exactly), circular-equatorial-retrograde, polar and e in [0.9, 0.99]; the composed round trips go "
+                    "circular-equatorial, retrograde, equatorial-retrograde (i = pi exactly), circular-equatorial-retrograde, polar and e in [0.9, 0.96]; the composed round trips go "
                     "through nested arccos / quadrant fixes and two Newton solves, outside what the solvers decided (the pieces are under contract above)",
             note="Cartesian -> classical -> Cartesian and Cartesian -> equinoctial -> Cartesian reproduce the state (1e-6 relative), elements of an element-built state come back (angles "
                  "modulo a turn), returned angles lie in their documented ranges, classical <-> equinoctial agrees with both routes, the element classes' fromECI(...).toECI() and "
@@ -885,3 +887,29 @@ def coe_invariants(vc):
     Pr = P[0] * r[0] + P[1] * r[1] + P[2] * r[2]
     vc.ensure("O-C12-chain.periapsis-direction", vc.And(vc.eq(P[0] * P[0] + P[1] * P[1] + P[2] * P[2], 1), vc.eq(Pr, rm * c), vc.eq(P[2], sw * si),
                                                         vc.eq(cO * P[0] + sO * P[1], cw)) if vc.symbolic else abs(Pr - rm * c) <= 1e-9 * rm)
+
+
+@obligation("C12", "kepler_high_ecc_bounded", ensures=["B-C12-kepler.classical-solve-high-eccentricity", "B-C12-kepler.equinoctial-solve-high-eccentricity"],
+            fns=[AN + "meanAnom2EccAnom", AN + "meanLong2EccLong", KP + "keplerSolveCOE", KP + "keplerSolveEQE"], mode="R", native_only=True, samples=400,
+            bounded="BOUNDED stand-in, not a proof: 400 (quick) / 4000 (thorough) sampled (mean angle, direction of periapsis) pairs per run at e in [0.97, 0.99]",
+            note="nearly parabolic bound orbits: both iterative solves return (no exception) an angle that satisfies Kepler's equation to 1e-9")
+def kepler_high_ecc_bounded(vc):
+    from resonaate.physics.orbits import anomaly as A_
+    M = vc.real("M", 0.0, TWO_PI, special=[2.079])
+    e = vc.real("e", 0.97, 0.99, special=[0.99])
+    th = vc.real("th", 0.0, TWO_PI, special=[2.183])
+    if vc.bool("recorded_witness"):   # the recorded witness of the known finding is part of every run
+        M, e, th = 2.079, 0.99, 2.183
+    try:
+        E = A_.meanAnom2EccAnom(M, e)
+        ok = _wrapdiff(E - e * np.sin(E), M) <= 1e-9
+    except Exception:  # noqa: BLE001
+        ok = False
+    vc.ensure("B-C12-kepler.classical-solve-high-eccentricity", bool(ok))
+    h, k = e * np.sin(th), e * np.cos(th)
+    try:
+        F = A_.meanLong2EccLong(M, h, k)
+        ok = _wrapdiff(F + h * np.cos(F) - k * np.sin(F), M) <= 1e-9
+    except Exception:  # noqa: BLE001
+        ok = False
+    vc.ensure("B-C12-kepler.equinoctial-solve-high-eccentricity", bool(ok))
